@@ -51,9 +51,35 @@ pub(crate) mod verif_common {
             }
         };
     }
-    memo_stub!(mul32_stub, MUL32_TAB, MUL32_CNT, u32, FP32, 6);
-    memo_stub!(mul64_stub, MUL64_TAB, MUL64_CNT, u64, FP64, 6);
-    memo_stub!(mul128_stub, MUL128_TAB, MUL128_CNT, u128, FP128, 6);
+    memo_stub!(mul32_stub, MUL32_TAB, MUL32_CNT, u32, FP32, 14);
+    memo_stub!(mul64_stub, MUL64_TAB, MUL64_CNT, u64, FP64, 14);
+    memo_stub!(mul128_stub, MUL128_TAB, MUL128_CNT, u128, FP128, 14);
+
+    /// Cheap instance of the S1-S3 abstraction for message-level harnesses that only MOVE field elements
+    /// (codecs, share plumbing): the Montgomery map and its inverse are taken to be the identity on [0,p)
+    /// (so decode/encode are mutually inverse, S2), products with any other operand are unconstrained
+    /// values < p.  The general (memoised) abstraction above is what the field-level codec contract is
+    /// proved against in C09 (field{32,64,128}_bytes); harnesses using this instance list it as an assumption.
+    macro_rules! id_stub {
+        ($name:ident, $w:ty, $fp:ident) => {
+            pub fn $name(x: $w, y: $w) -> $w {
+                let p = <$fp as FieldParameters<$w>>::PRIME;
+                assert!(y < p, "mul contract: requires y < p");
+                if y == <$fp as FieldParameters<$w>>::R2 || y == 1 {
+                    if x < p { x } else { x % p }
+                } else if x == 0 || y == 0 {
+                    0
+                } else {
+                    let r: $w = kani::any();
+                    kani::assume(r < p);
+                    r
+                }
+            }
+        };
+    }
+    id_stub!(mul32_id_stub, u32, FP32);
+    id_stub!(mul64_id_stub, u64, FP64);
+    id_stub!(mul128_id_stub, u128, FP128);
 
     /// R2: never let CBMC unwind the drop glue of a boxed error.
     pub fn forget<T>(t: T) { core::mem::forget(t) }
